@@ -72,6 +72,7 @@ type c19Case struct {
 	Caller   []string `json:"caller"`   // attached set (only if Attached)
 	Attached bool     `json:"attached"` // permissions attached to ctx at all?
 	NilSet   bool     `json:"nil_set"`  // attach a nil slice instead of an empty one
+	Pre      *[]string `json:"pre,omitempty"` // a set attached earlier on the same context chain (only with Attached): the later one is in force
 	Defaults []string `json:"defaults"`
 	Required int      `json:"required"` // index into universe
 	Value    bool     `json:"value"`    // shape (value,error) vs error
@@ -102,6 +103,9 @@ func runC19Proxy(c c19Case) *Violation {
 	auth.PermissionedProxy(c19Universe, toPerms(c.Defaults), impl, &px)
 
 	ctx := context.Background()
+	if c.Attached && c.Pre != nil {
+		ctx = auth.WithPerm(ctx, toPerms(*c.Pre))
+	}
 	if c.Attached {
 		if c.NilSet && len(c.Caller) == 0 {
 			ctx = auth.WithPerm(ctx, nil)
@@ -184,6 +188,7 @@ type c19HTTPCase struct {
 	Allow     []string `json:"allow"`
 	AllowNil  bool     `json:"allow_nil"`
 	Method    string   `json:"method,omitempty"` // HTTP method ("" = POST): the handler's duties do not depend on it
+	Pre       *[]string `json:"pre,omitempty"`   // the request reaches the handler already carrying this set (outer middleware); used for token-bearing requests only
 }
 
 func runC19HTTP(c c19HTTPCase) *Violation {
@@ -226,6 +231,9 @@ func runC19HTTP(c c19HTTPCase) *Violation {
 	req.Header.Set("Content-Type", "application/json")
 	if c.Header != nil {
 		req.Header["Authorization"] = []string{*c.Header}
+	}
+	if c.Pre != nil && (c.Header != nil && *c.Header != "" || c.Query != nil && *c.Query != "") {
+		req = req.WithContext(auth.WithPerm(req.Context(), toPerms(*c.Pre)))
 	}
 	rw := httptest.NewRecorder()
 	h.ServeHTTP(rw, req)
@@ -597,9 +605,9 @@ func runC19Concurrent(c c19Concurrent) *Violation {
 }
 
 func TestC19(t *testing.T) {
-	rec := NewRec("C19", "proxy cases: exhaustive (caller set x default set x attached x required x shape) over a 3-permission universe plus generated lists with duplicates/foreign/empty permissions; HTTP cases: header form x query form x verifier outcome x HTTP method {POST, GET, OPTIONS, PUT, HEAD, DELETE}; histories of 2-8 requests on one handler whose verifier changes its verdict for a token between requests (revoked, re-scoped, re-issued). Non-trivial = the effective set is non-empty and differs from the set that was NOT chosen (attached vs defaults disagree on the verdict), or an HTTP case carrying a token; distinct by descriptor hash")
+	rec := NewRec("C19", "proxy cases: exhaustive (caller set x default set x attached x required x shape x an earlier attachment on the same context chain {none, the complement, everything}) over a 3-permission universe plus generated lists with duplicates/foreign/empty permissions; HTTP cases: header form x query form x verifier outcome x HTTP method {POST, GET, OPTIONS, PUT, HEAD, DELETE} x a set already attached by an outer layer; histories of 2-8 requests on one handler whose verifier changes its verdict for a token between requests (revoked, re-scoped, re-issued). Non-trivial = the effective set is non-empty and differs from the set that was NOT chosen (attached vs defaults disagree on the verdict), or an HTTP case carrying a token; distinct by descriptor hash")
 	defer rec.Finish(t)
-	rec.RequireClass("http_method_OPTIONS", "sequence_verdict_changes", "concurrent_requests", "proxy_denied", "proxy_allowed", "attached_empty", "http_malformed", "http_rejected", "http_query_token", "http_both")
+	rec.RequireClass("attached_twice_verdicts_differ", "http_pre_attached", "http_method_OPTIONS", "sequence_verdict_changes", "concurrent_requests", "proxy_denied", "proxy_allowed", "attached_empty", "http_malformed", "http_rejected", "http_query_token", "http_both")
 
 	proxyClasses := func(c c19Case) (bool, []string) {
 		req := string(c19Universe[c.Required])
@@ -617,6 +625,12 @@ func TestC19(t *testing.T) {
 		if c.Attached && len(c.Caller) == 0 {
 			cl = append(cl, "attached_empty")
 		}
+		if c.Attached && c.Pre != nil {
+			cl = append(cl, "attached_twice")
+			if containsStr(*c.Pre, req) != inC {
+				return true, append(cl, "attached_twice_verdicts_differ")
+			}
+		}
 		return inC != inD, cl
 	}
 
@@ -633,10 +647,23 @@ func TestC19(t *testing.T) {
 									if nilset == 1 && !(att == 1 && cm == 0) {
 										continue
 									}
-									c := c19Case{Caller: maskSet(cm), Attached: att == 1, NilSet: nilset == 1, Defaults: maskSet(dm), Required: req, Value: shape == 1, ImplFail: fail == 1, X: n}
-									nt, cl := proxyClasses(c)
-									rec.Run(t, c, nt, cl, func() *Violation { return runC19Proxy(c) })
-									n++
+									for pre := 0; pre < 3; pre++ {
+										c := c19Case{Caller: maskSet(cm), Attached: att == 1, NilSet: nilset == 1, Defaults: maskSet(dm), Required: req, Value: shape == 1, ImplFail: fail == 1, X: n}
+										if pre > 0 {
+											if att == 0 {
+												continue
+											}
+											// an earlier attachment on the same chain: everything the later one lacks, or everything
+											p := maskSet(7 &^ cm)
+											if pre == 2 {
+												p = maskSet(7)
+											}
+											c.Pre = &p
+										}
+										nt, cl := proxyClasses(c)
+										rec.Run(t, c, nt, cl, func() *Violation { return runC19Proxy(c) })
+										n++
+									}
 								}
 							}
 						}
@@ -744,6 +771,10 @@ func TestC19(t *testing.T) {
 				Defaults: genPermList(rt, "defaults"), Required: rapid.IntRange(0, 2).Draw(rt, "required"),
 				Value: rapid.Bool().Draw(rt, "value"), ImplFail: rapid.Bool().Draw(rt, "implfail"), X: rapid.IntRange(-1000, 1000).Draw(rt, "x"),
 			}
+			if c.Attached && rapid.IntRange(0, 2).Draw(rt, "pre") == 0 {
+				p := genPermList(rt, "prelist")
+				c.Pre = &p
+			}
 			nt, cl := proxyClasses(c)
 			rec.Run(rt, c, nt, cl, func() *Violation { return runC19Proxy(c) })
 		default:
@@ -762,6 +793,10 @@ func TestC19(t *testing.T) {
 				x := genTokenString(rt, "qtoken")
 				c.Query = &x
 			}
+			if rapid.IntRange(0, 2).Draw(rt, "pre") == 0 {
+				p := genPermList(rt, "prelist")
+				c.Pre = &p
+			}
 			rec.Run(rt, c, c.Header != nil || c.Query != nil, httpClasses(c), func() *Violation { return runC19HTTP(c) })
 		}
 	})
@@ -775,6 +810,9 @@ func httpClasses(c c19HTTPCase) []string {
 	}
 	if c.Query != nil {
 		q = *c.Query
+	}
+	if c.Pre != nil && (h != "" || q != "") {
+		cl = append(cl, "http_pre_attached")
 	}
 	if h != "" && !strings.HasPrefix(h, "Bearer ") {
 		cl = append(cl, "http_malformed")
